@@ -10,6 +10,9 @@ Decided:
     (len(inputs), len(outputs), in-use count, SIZE, indirect flag), is folded for SIZE in {1,2,4,8,16} and all
     counts and compared with the specification-level predicate, including which submission form is chosen.
  E4 accounting sites: the in-use counter is written only on the add / release super-graphs and by the constructor.
+ E6 <shape> free-list relink: when a direct chain is released, the test that decides whether the released descriptor is
+    the chain's tail (and must be linked to the old free-list head) examines the link read from that descriptor in the
+    same loop iteration, never the loop-initial or previous cursor value.
  E5 wrap-safe indices (H-ctr): the free-running ring indices are never order-compared raw and never combined with
     non-wrapping arithmetic anywhere in the queue code.
 Not decided: exactly-once over histories (needs the free-list heap invariant).
@@ -45,6 +48,7 @@ def run(F, R):
     e1_e2_pop(F, R, M, pop_id, lfield)
     e4_accounting(F, R, M, add_id, pop_id)
     e5_counters(F, R, M, tfield, lfield)
+    R.count('relink_sites', e6_relink(F, R, M, pop_id))
 
 
 def last_used_field(F, M, can_pop_id):
@@ -352,3 +356,84 @@ def e5_counters(F, R, M, tfield, lfield):
                     nops += 1
                     R.held('E5', '%s:%s' % (b['id'], fn.rsplit('::', 1)[1]), site(sg, n), 'wrapping arithmetic on index')
     R.count('counter_ops', nops)
+
+
+def natural_loops(sg):
+    loops = []
+    for (u, v) in back_edges(sg):
+        body = {v}
+        st = [u]
+        while st:
+            x = st.pop()
+            if x in body:
+                continue
+            body.add(x)
+            st.extend(sg.nodes[x].pred)
+        loops.append((v, body))
+    return loops
+
+
+def e6_relink(F, R, M, pop_id, rule='E6'):
+    """<shape> The free-list relink of a released chain is decided by the *current* descriptor's own link:
+    the end-of-chain test that guards `desc.next = <saved free-list head>` must only see cursor values read from
+    a descriptor in the same iteration - never the loop-initial cursor or the previous iteration's value."""
+    sg = supergraph(F, pop_id)
+    S = sg.sym
+    loops = natural_loops(sg)
+    inloop = set()
+    for _, body in loops:
+        inloop |= body
+    nextf = M.desc_field_by_role['next']
+    be = back_edges(sg)
+    found = 0
+    for n in sg.nodes:
+        if n.kind != 'assign' or not n.d['place']['p'] or n.id not in inloop:
+            continue
+        loc = S.place_loc(n.id, n.d['place'])
+        if not (loc[2] and loc[2][-1][0] == 'f' and loc[2][-1][1] == nextf and loc[2][-1][2] == M.desc_adt and M.is_shadow_loc(loc)):
+            continue
+        v = S.rvalue(n.id, n.d['rv'])
+        if not derives_from(v, lambda x: x[0] == 'load' and x[1][2] and x[1][2][-1][0] == 'f' and x[1][2][-1][2] == M.queue_adt):
+            continue
+        found += 1
+        where = site(sg, n)
+        gs = sg.guards_of(n.id)
+        cursors = []
+        for swid, vals, succ in gs:
+            if swid not in inloop:
+                continue
+            d = S.operand(swid, sg.nodes[swid].d['discr'])
+            for x in subterms(d):
+                if x[0] == 'loc' and x[1][0] == 'local' and not x[2]:
+                    cursors.append((swid, x[1][1], x[1][2]))
+        if not cursors:
+            R.abstain(rule, '%s:relink-guard' % pop_id, 'relink store found but its end-of-chain test is not a test of a local cursor', where)
+            continue
+        bad = None
+        for swid, cx, l in cursors:
+            # the node that evaluates the test operand (the call is_none(&cursor) or the switch itself)
+            tests = [m.id for m in sg.nodes if m.kind == 'call' and m.inl is None and any(
+                (a.get('move') or a.get('copy') or {}).get('l') is not None for a in m.d['args']) and m.id in inloop and m.ctx == cx and
+                any(x[0] == 'loc' and x[1] == ('local', cx, l) for a in m.d['args'] for x in subterms(S.operand(m.id, a)))
+                and sg.between_always(m.id, swid, [swid]) and swid in sg.reach_fwd(m.succ, avoid_edges=be)]
+            at = tests[-1] if tests else swid
+            defs, hit_entry = S.reaching_defs(at, cx, l)
+            # on the loop-free graph: which definitions reach the test within one iteration
+            dag_defs = []
+            for dn in defs:
+                if at in sg.reach_fwd(sg.nodes[dn].succ, avoid_edges=be):
+                    # not killed by another def on the way (same iteration)?
+                    others = [o for o in defs if o != dn]
+                    r = sg.reach_fwd(sg.nodes[dn].succ, avoid=others, avoid_edges=be)
+                    if at in r:
+                        dag_defs.append(dn)
+            outside = [dn for dn in dag_defs if dn not in inloop]
+            stale = [dn for dn in defs if dn in inloop and dn not in dag_defs]
+            if outside or (stale and not dag_defs):
+                bad = (outside or stale)[0]
+        R.check(bad is None, rule, '%s:relink-tests-current-link' % pop_id, where,
+                'the end-of-chain test sees the link of the descriptor released in this iteration',
+                'the test guarding the free-list relink examines a stale cursor (defined at %s) instead of the link of the descriptor being '
+                'released: the tail of a recycled chain is not relinked to the old free list, so descriptors of chains still in flight can '
+                'be handed out again' % (site(sg, bad) if bad is not None else ''))
+    return found
